@@ -103,7 +103,12 @@ fn build(ctx: &Ctx, cons: &Consensus, shift: u64) -> Result<Universe, String> {
         let c1 = plain(&g[5..6], 16);
         let c2 = plain(&[out(&c1, 0)], 17);
         add("input/created-earlier-in-the-same-block", vec![c1.clone(), c2.clone()], true, None);
-        add("input/created-later-in-the-same-block", vec![c2, c1], false, None);
+        add("input/created-later-in-the-same-block", vec![c2.clone(), c1.clone()], false, None);
+        // rules that depend on WHERE an input was created, for an input created in the same block
+        add("since/relative-block=0-on-a-cell-of-the-same-block", vec![c1.clone(), with_since(&c2, REL)], true, None);
+        add("since/relative-block=1-on-a-cell-of-the-same-block", vec![c1.clone(), with_since(&c2, REL | 1)], false, None);
+        add("since/relative-epoch=0-on-a-cell-of-the-same-block", vec![c1.clone(), with_since(&c2, REL | epoch_since(0, 0, 1))], true, None);
+        add("since/relative-epoch=1/4-on-a-cell-of-the-same-block", vec![c1.clone(), with_since(&c2, REL | epoch_since(0, 1, 4))], false, None);
     }
     {
         let t = plain(&g[3..4], 20);
@@ -220,6 +225,18 @@ fn build(ctx: &Ctx, cons: &Consensus, shift: u64) -> Result<Universe, String> {
         p.push(b);
     }
     let _ = genesis;
+    // the candidate block's own cellbase output, spent in that very block (the world has one epoch
+    // of cellbase maturity): the cellbase of block h depends only on the chain below p3's proposals
+    {
+        let probe = forge.build_on(&p[4].hash(), &BlockSpec { miner: 2, ..Default::default() })?;
+        forge.known.remove(&probe.hash());
+        let cb = probe.transactions()[0].clone();
+        if cb.outputs().is_empty() {
+            return Err("the candidate block's cellbase has no output".into());
+        }
+        let spend = simple_tx(cons, &[out(&cb, 0)], 1, 1_000_000, 70);
+        cands.push(Cand { name: "maturity/cellbase-output-of-the-same-block".into(), txs: vec![spend], valid_in_block: false, valid_in_pool: Some(false) });
+    }
     let mut q = vec![];
     // header deps
     {
